@@ -425,7 +425,7 @@ class SymInterp:
             recv = self.ev(f.value, env)
             if isinstance(recv, Blob):
                 return Blob(f"{recv._name}.{f.attr}()")
-            if isinstance(recv, (list, tuple, str, dict)):
+            if isinstance(recv, (list, tuple, str, dict)) or type(recv).__module__ == "collections":
                 return getattr(recv, f.attr)(*args, **kwargs)
             target = self.resolver(recv, f.attr)
             if target is None and isinstance(recv, Sym) and callable(recv.__dict__.get(f.attr)):
